@@ -19,6 +19,13 @@ var Props = map[string]PropRunner{
 	"C20": RunE3,
 	"C13": func(r *Run) { RunE1(r, "C13") },
 	"C14": func(r *Run) { RunE1(r, "C14") },
+	// the structural properties C01-C05 quantify over histories; a history may be concurrent on one log
+	// instance: the same shared-log scenarios as C13, reported under the property whose statement breaks
+	"C01c": func(r *Run) { RunE1(r, "C01") },
+	"C02c": func(r *Run) { RunE1(r, "C02") },
+	"C03c": func(r *Run) { RunE1(r, "C03") },
+	"C04c": func(r *Run) { RunE1(r, "C04") },
+	"C05c": func(r *Run) { RunE1(r, "C05") },
 	"C17": func(r *Run) {
 		p := e0Profile("C17", "C17")
 		p.Weights[opAppend] = 40
